@@ -194,6 +194,13 @@ func viaHalf(op func(ro.Observable[float64]) ro.Observable[float64], k float64) 
 	}
 }
 
+// viaBig feeds v * 10^9 (v * 10^309 overflows float64: the operator takes its arbitrary-precision path) and reads the result back as an integer
+func viaBig(op func(ro.Observable[float64]) ro.Observable[float64]) Op {
+	return func(src ro.Observable[any]) ro.Observable[any] {
+		return ro.Map(func(x float64) any { return int(math.Round(x / 1e9)) })(op(ro.Map(func(a any) float64 { return float64(asInt(a)) * 1e9 })(src)))
+	}
+}
+
 func anyOf[T any](o ro.Observable[T]) ro.Observable[any] {
 	return ro.Map(func(x T) any { return any(x) })(o)
 }
@@ -555,6 +562,14 @@ func Build(st Stage, i int, e *Env) (Op, error) {
 		return viaHalf(ro.Trunc(), 1), nil
 	case "Abs":
 		return viaHalf(ro.Abs(), 2), nil
+	case "CeilP1":
+		return viaHalf(ro.CeilWithPrecision(1), 2), nil
+	case "FloorP1":
+		return viaHalf(ro.FloorWithPrecision(1), 2), nil
+	case "CeilBig":
+		return viaBig(ro.CeilWithPrecision(300)), nil
+	case "FloorBig":
+		return viaBig(ro.FloorWithPrecision(300)), nil
 	case "Average":
 		return func(src ro.Observable[any]) ro.Observable[any] {
 			return ro.Map(func(x float64) any {
